@@ -62,6 +62,16 @@ def run_pls(ck, rng, tier, which):
             X[:, 0], xs = X[:, 0] * 1e-4, rng.choice((-1, 0))
         elif corner == 4:
             Y, ys = (Y - Y.mean(axis=0)) * 1e-3 / (np.abs(Y - Y.mean(axis=0)).max() + 1e-300) + Y.mean(axis=0) * 1e-3, rng.choice((-1, 0))
+        elif corner == 6 and c < 16:
+            n, m, ny = rng.randint(12, 18), 7, 1
+            X, Y = gen_xy(rng, n, m, ny, noise)
+        elif corner == 7:
+            # finite data of extreme magnitude with no or centring-only scaling: the squares of single entries are finite doubles, the
+            # squares of whole cross-products are not
+            if ny >= 2:
+                X, Y, xs, ys = X * 1e80, Y * 1e80, rng.choice((-1, 0)), rng.choice((-1, 0))
+            else:
+                X, xs = X * 1e100, rng.choice((-1, 0))
         elif corner == 5:
             # descriptors in large units with one entry that is EXACTLY 1e8: next to the missing-value code (99999999), an
             # ordinary number for every routine
@@ -79,6 +89,8 @@ def run_pls(ck, rng, tier, which):
         if rank < 1:
             continue
         nlv = rng.choice((rank, rank, 1, rng.randint(1, rank)))
+        if corner == 6 and c < 16 and m == 7:
+            nlv = rank
         Xnew = np.array([[rng.gauss(0, 1) * 2 + rng.uniform(-3, 3) for _ in range(m)] for _ in range(3)])
         lines.append("pls %s %s %s %d %d %d" % (vf.fmt_mat(X.tolist(), m), vf.fmt_mat(Y.tolist(), ny), vf.fmt_mat(Xnew.tolist(), m), xs, ys, nlv))
         meta.append((X, Y, Xnew, xs, ys, nlv, rank, noise))
